@@ -5,11 +5,17 @@ from vlib import Case, Stream, BUILD, model_cmd
 ID = "C17"
 LEAN_MODULES = ["HgVerif.Props.C17"]
 THEOREMS = [
-    "HgVerif.Realtime.rt_times_strict", "HgVerif.Realtime.rt_at_exact_T", "HgVerif.Realtime.rt_not_early",
-    "HgVerif.Realtime.rt_early_without_clock_hypothesis", "HgVerif.Realtime.rt_stop",
-    "HgVerif.Realtime.rt_terminates", "HgVerif.Realtime.rt_no_drop", "HgVerif.Realtime.rt_alarm_never_dropped",
-    "HgVerif.Realtime.rt_cutoff_only_busy_past_end", "HgVerif.Realtime.rt_wait_returns_on_signal",
-    "HgVerif.Realtime.rt_no_missed_signal",
+    "HgVerif.Realtime.inv_reachable",
+    "HgVerif.Realtime.rt_times_strict", "HgVerif.Realtime.rt_times_strict_from",
+    "HgVerif.Realtime.rt_at_exact_T", "HgVerif.Realtime.rt_no_drop",
+    "HgVerif.Realtime.rt_not_early", "HgVerif.Realtime.rt_early_without_clock_hypothesis",
+    "HgVerif.Realtime.rt_stop", "HgVerif.Realtime.rt_stop_from",
+    "HgVerif.Realtime.rt_terminates", "HgVerif.Realtime.rt_terminates_from",
+    "HgVerif.Realtime.consec_is_trailing", "HgVerif.Realtime.rt_cutoff_only_busy_past_end",
+    "HgVerif.Realtime.rt_alarm_never_dropped",
+    "HgVerif.Realtime.rt_wait_returns_on_signal", "HgVerif.Realtime.signal_sets_predicate",
+    "HgVerif.Realtime.Sig.good_reach", "HgVerif.Realtime.rt_no_missed_signal",
+    "HgVerif.Realtime.rt_missed_signal_if_flag_set_outside_mutex",
 ]
 CXX_TARGETS = ["hgv_realtime"]
 RULE = ("real-time runs of a real GraphExecutor (virtual wall clock and wait through the verification hooks) on 0-3 "
